@@ -208,7 +208,12 @@ func ChooseK2(x *explore.Ctx, levels []int, sizes []int64) Config {
 	cm := compModes[x.Choose("cfg", len(compModes))]
 	lvl := levels[x.Choose("cfg", len(levels))]
 	size := sizes[x.Choose("cfg", len(sizes))]
-	flags := FlagSets16[x.Choose("cfg", len(FlagSets16))]
+	sets := FlagSets16
+	if cm.comp == "zstd" && cm.custom == 0 {
+		// a zstd encoder costs ~8 ms to initialise: zstd is combined with 4 flag settings instead of 16
+		sets = FlagSets16[:4]
+	}
+	flags := sets[x.Choose("cfg", len(sets))]
 	crc := x.Bool("cfg")
 	return Config{Flags: flags, CRC: crc, Chunked: true, ChunkSize: size, Compression: cm.comp, Level: lvl, Custom: cm.custom}
 }
@@ -265,7 +270,7 @@ func PanicSite(p any) string {
 			// next function line after the panic frames
 			for j := i + 2; j < len(lines); j += 2 {
 				fn := lines[j]
-				if k := strings.Index(fn, "("); k > 0 {
+				if k := strings.LastIndex(fn, "("); k > 0 {
 					fn = fn[:k]
 				}
 				if strings.Contains(fn, "runtime.") {
